@@ -240,7 +240,7 @@ class HTMLConverter(HTMLScraper, BaseDocumentConverter):
         return new_url
 
     def _convert_css_attrib(self, link_info):
-        done_key = (link_info.element, link_info.attrib)
+        done_key = (id(link_info.element), link_info.attrib)
 
         if done_key in self._css_already_done:
             return
@@ -257,7 +257,7 @@ class HTMLConverter(HTMLScraper, BaseDocumentConverter):
         return new_value
 
     def _convert_css_text(self, link_info):
-        if link_info.element in self._css_already_done:
+        if id(link_info.element) in self._css_already_done:
             return
 
         text = wpull.string.to_str(link_info.element.text)
